@@ -5,7 +5,7 @@
      handle_file            rotating = (maxbytes != 0) chooses RotatingFileHandler(filename,'a',
                             maxbytes, backups) or the plain FileHandler(filename) (mode 'ab')
      Handler.emit           stream.write(msg); flush()           (every exception swallowed)
-     RotatingFileHandler    emit = Handler.emit; doRollover()
+     RotatingFileHandler    emit = Handler.emit; try: doRollover() except: handleError()   (a811a35)
        doRollover           if maxBytes <= 0: return
                             if not (stream.tell() >= maxBytes): return      (test AFTER the write)
                             stream.close()
@@ -13,7 +13,9 @@
                               for i in range(backupCount - 1, 0, -1):
                                  if exists(base.i): removeAndRename(base.i, base.(i+1))
                               removeAndRename(base, base.1)
-                            stream = open(base, 'wb')                       (NOT append)
+                            stream = open(base, 'wb')                       (NOT append; since a811a35
+                              in a finally, with mode 'ab' when a rename raised - a rename failing with
+                              anything but ENOENT is not modelled)
        removeAndRename      if exists(dfn): remove(dfn)   ; rename(sfn, dfn)  (ENOENT tolerated)
      FileHandler.reopen     close(); stream = open(base, self.mode)         (mode 'ab')
      FileHandler.remove     close(); os.remove(base)                        (ENOENT tolerated)
@@ -157,7 +159,8 @@ Definition do_rollover (f : fs) (h : handler) : outcome :=
   if h_maxbytes h <=? 0 then Ok f h
   else
     match h_stream h with
-    | None => Crash               (* tell() on a closed file: ValueError out of emit *)
+    | None => Ok f h              (* tell() on a closed file raises ValueError; since a811a35 emit()
+                                     handles it like a failed write (handleError), nothing changes *)
     | Some _ =>
       if negb (h_pos h >=? h_maxbytes h) then Ok f h
       else
